@@ -62,6 +62,16 @@ func runC03(c *Ctx) {
 	runMapProtocol(c, "map/")
 }
 
+// c03SetCore: maps.Set's Has and Add rows only, recorded under a helper rule (used where another property's code
+// builds on a maps.Set).
+func c03SetCore(c *Ctx, rule string) {
+	savedOnly, savedAlias := c.Only, c.R.Alias
+	c.Only = map[string]bool{"maps.(Set).Has": true, "maps.(Set).Add": true}
+	c.R.Alias = map[string]string{"change-reporting": rule, "enumeration-source": rule, "operator-table": rule, "operands-readonly": rule, "result-fresh": rule, "range-stops": rule}
+	defer func() { c.Only, c.R.Alias = savedOnly, savedAlias }()
+	c03Impl(c, setImpl{"maps", "Set", "maps.(Set).", false})
+}
+
 // isSetMutator: call names that change a set
 func isSetMutatorName(n string) bool {
 	for _, s := range []string{".Add", ".AddSet", ".Remove", ".RemoveSet", ".Store", ".LoadOrStore", ".LoadAndDelete", ".Delete"} {
@@ -806,9 +816,12 @@ func c03Ctors(c *Ctx) {
 					if ok && (set == nil || !(set.Op == "mkmap" || set.Op == "alloc")) {
 						ok, why = false, "the set is not freshly created"
 					}
-					for _, p := range it.li.Exit {
+					// every returning path - also one that never reaches the loop (an early return for an empty argument) -
+					// hands out the set this call created: a nil or shared set is not "a set with the argument's elements"
+					// for a caller that goes on to use it
+					for _, p := range ps {
 						if p.End == EndReturn && (len(p.Rets) != 1 || set == nil || stripIface(p.Rets[0]).Key() != set.Key()) {
-							ok, why = false, "does not return the set it filled"
+							ok, why = false, "a path ("+p.CondString()+") does not return the set it filled"
 						}
 					}
 				}
